@@ -54,7 +54,24 @@ def fill(s, tag, lines):
     a = s.index(f'<!-- {tag}-BEGIN -->') + len(f'<!-- {tag}-BEGIN -->')
     b = s.index(f'<!-- {tag}-END -->')
     return s[:a] + '\n' + '\n'.join(lines) + '\n' + s[b:]
+erows = ['| harmless edit | property | what was refactored | all checks quiet | checks run |', '|---|---|---|---|---|']
+eres = {}
+ep = V / 'equiv' / 'RESULTS.json'
+if ep.is_file():
+    eres = json.loads(ep.read_text())
+if (V / 'equiv').is_dir():
+    for d in sorted((V / 'equiv').iterdir()):
+        if not (d / 'meta.json').is_file():
+            continue
+        meta = json.loads((d / 'meta.json').read_text())
+        r = eres.get(d.name, {})
+        cs = '; '.join('%s: exit %d' % (q, c['exit']) for q, c in r.get('checks', {}).items())
+        what = str(meta.get('summary', ''))[:170].replace('|', '/').replace('\n', ' ')
+        erows.append('| %s | %s | %s | %s | %s |' % (d.name, meta.get('property'), what,
+                     ('yes' if r.get('quiet') else 'NO') if r else 'not run', cs))
 s = fill(s, 'OBLIGATIONS', rows)
 s = fill(s, 'SEEDED', srows)
+if '<!-- EQUIV-BEGIN -->' in s:
+    s = fill(s, 'EQUIV', erows)
 p.write_text(s)
-print('ok', len(rows) - 2, 'properties', len(srows) - 2, 'seeded')
+print('ok', len(rows) - 2, 'properties', len(srows) - 2, 'seeded', len(erows) - 2, 'equiv')
